@@ -71,6 +71,7 @@ def run(tier, seed):
     maxh = 80 if q else 1500
     ops = {}
     verdict_hist = {}
+    noise = []
     total_waits = 0
     for fi, kinds in enumerate(families):
         # ---- 1. generation
@@ -145,20 +146,27 @@ def run(tier, seed):
             total_waits += sum(1 for e in events if e["e"] == "wait")
             if not verdicts:
                 continue
-            # a rejection is re-run once before it is reported
+            # a rejection is re-run (up to 3 times) before it is reported; one that never repeats is noise
             bad = sorted({v["scen"] for v in verdicts})
-            todo = []
-            for sc in bad:
-                corpus, i, sigfd = index[sc]
-                dc, outs = bc.run_real(exe, [hists[corpus][i]], cons[corpus], be, sigfd, fdmap=fi)
-                todo.append((corpus, i, sigfd, outs[0]))
-            res2, verdicts2, done2, index2, events2 = validate(be, todo, "_rerun")
-            again = {index2[v["scen"]]: v for v in verdicts2}
+            again, events2 = {}, []
+            for attempt in range(3):
+                todo = []
+                for sc in bad:
+                    if index[sc] in again:
+                        continue
+                    corpus, i, sigfd = index[sc]
+                    dc, outs = bc.run_real(exe, [hists[corpus][i]], cons[corpus], be, sigfd, fdmap=fi)
+                    todo.append((corpus, i, sigfd, outs[0]))
+                if not todo:
+                    break
+                res2, verdicts2, done2, index2, ev2 = validate(be, todo, "_rerun%d" % attempt)
+                for v in verdicts2:
+                    if index2[v["scen"]] not in again:
+                        again[index2[v["scen"]]] = (v, ev2[v["l"] - 1])
             for sc in bad:
                 if index[sc] not in again:
-                    raise vkit.InfraError("rejection of %s on %s did not repeat (infrastructure noise)" % (index[sc], be))
-            for (corpus, i, sigfd), v in sorted(again.items())[:5]:
-                ev = events2[v["l"] - 1]
+                    noise.append((be,) + index[sc])
+            for (corpus, i, sigfd), (v, ev) in sorted(again.items())[:5]:
                 verdict_hist[v["verdict"]] = verdict_hist.get(v["verdict"], 0) + 1
                 if v["verdict"] == "model":
                     raise vkit.InfraError("abstract socket model disagrees with the probe: %s %s\n%s" %
@@ -179,6 +187,9 @@ def run(tier, seed):
     if missing:
         raise vkit.InfraError("vacuous scenario corpus: ops never generated: %s" % missing)
     chk.cov["op_histogram"] = ops
+    chk.cov["rejections_not_repeated"] = len(noise)
+    if noise and not chk.violations:
+        raise vkit.InfraError("rejections that did not repeat in 3 re-runs (infrastructure noise): %s" % noise[:5])
     chk.cov["loop_iterations_judged"] = total_waits
     chk.cov["rule"] = ("TLC-generated scenarios (random long + exhaustive short, 3 fds of kinds %s, 3 events, ET/LT, EV_CLOSED) "
                        "are executed on epoll, epoll+changelist, poll, select x {self-pipe, signalfd}; every execution is "
@@ -186,7 +197,7 @@ def run(tier, seed):
                        "to the poll(2) probes taken before and after the iteration, ET bound to the kernel report captured "
                        "in the wrapped wait call); interest sets and return values are compared with the specification "
                        "(binding G); LT callback sets are compared across configurations. A rejected execution is re-run "
-                       "once before it is reported." % (families,))
+                       "(up to 3 times) and reported only if the rejection repeats." % (families,))
     chk.assumptions += [
         "callbacks do not consume data; all events are EV_PERSIST",
         "may-hold = probe before OR after the iteration (HUP/ERR/NVAL count for read and write); must-hold = probe before AND after",
